@@ -474,7 +474,10 @@ class CompositeFrontend(ConstrainedFrontend):
 
         log.debug("Merging %s with %d other solvers.", self, len(others))
         merged = self.blank_copy()
-        common_solvers = self._shared_solvers(others)
+        # a shared child whose variables occur in the merge conditions cannot be kept as it is: the merged
+        # non-common child will own those variables (and would replace it), so it has to take part in the merge
+        condition_vars = frozenset().union(*(c.variables for c in merge_conditions))
+        common_solvers = [s for s in self._shared_solvers(others) if not s.variables & condition_vars]
         common_ids = {id(s) for s in common_solvers}
         log.debug("... %s common solvers", len(common_solvers))
 
